@@ -616,6 +616,18 @@ def par_child_timeout(T='1/4', poll=False):
     return cfg
 
 
+def cross_ff_grandchild(order=('A', 'B')):
+    """a handler on A awaits a child on the other (warm, idle) bus B; the child's handler fire-and-forgets a grandchild back onto A
+    (not forwarded: A is not in the child's path and B is not in the grandchild's): the child is complete only when the grandchild
+    is, and whoever finishes the grandchild must find its parent on a bus the grandchild never travelled through."""
+    handlers = [['A', 'P', 'hP', [['dispawait', 'B', 'C', 'C1'], ['ret', 'p']]],
+                ['B', 'C', 'hC', [['sleep', 'd1'], ['disp', 'A', 'G', 'G1'], ['ret', 'c']]],
+                ['A', 'G', 'hG', [['sleep', 'd2'], ['ret', 'g']]], ['B', 'X', 'hX', [['ret', 'x']]], ['A', 'X', 'hXA', [['ret', 'x']]]]
+    main = [['root', 'B', 'X', 'X0'], ['idle', 'B'], ['root', 'A', 'X', 'XA0'], ['idle', 'A'], ['root', 'A', 'P', 'P1'], ['await', 'P1'],
+            ['obs', 'after_await', 'P1'], ['idle', 'A'], ['idle', 'B'], ['obs_all', 'end']]
+    return dict(buses=['A', 'B'], order=list(order), reals={'d1': D, 'd2': D}, handlers=handlers, main=main, horizon=6)
+
+
 def flood_idle():
     """a burst larger than the queue onto a bus with a small history limit (rejections swallowed), then wait_until_idle()."""
     handlers = [['A', 'C', 'hC', [['ret', 'c']]]]
